@@ -32,11 +32,14 @@ class Boom(Exception):
 class Sys:
     """One real primitive plus the recorder.  step(op) performs one public call and logs one event."""
 
-    def __init__(self, cfg):
+    def __init__(self, cfg, chained=False):
         from twisted.internet import defer
 
         self.defer = defer
         self.cfg = cfg
+        # chained: an "Async" function returns an ALREADY FIRED Deferred that is waiting on a pending one
+        # (succeed(None).addCallback(lambda _: pending)); its result is just as unavailable as an unfired one's
+        self.chained = chained
         self.prim = defer.DeferredLock() if cfg["lock"] else defer.DeferredSemaphore(cfg["limit"])
         self.acq = []          # per acquisition: dict(kind, d, inner, val)
         self.gr = []
@@ -102,6 +105,8 @@ class Sys:
                     if kind == "SyncRaise":
                         raise Boom()
                     rec["inner"] = defer.Deferred()
+                    if self.chained:
+                        return defer.succeed(None).addCallback(lambda _, p=rec["inner"]: p)
                     return rec["inner"]
 
                 d = self.prim.run(f)
@@ -157,11 +162,11 @@ class Sys:
         return ops
 
 
-def run_history(cfg, ops):
-    s = Sys(cfg)
+def run_history(cfg, ops, chained=False):
+    s = Sys(cfg, chained)
     for op in ops:
         s.step(tuple(op))
-    return {"cfg": cfg, "ops": [list(o) for o in ops], "ev": s.ev}
+    return {"cfg": cfg, "ops": [list(o) for o in ops], "ev": s.ev, "mode": {"chained": chained}}
 
 
 def exhaustive(cfg, depth):
@@ -348,7 +353,7 @@ def report(ctx, traces, rej, label):
         ctx.violation(fingerprint(t, x),
                       "real %s execution not explained by LockSem.tla at event %d (%s): %s" % (
                           "DeferredLock" if t["cfg"]["lock"] else "DeferredSemaphore(%d)" % t["cfg"]["limit"], x.reached, label, ev),
-                      dict(cfg=t["cfg"], ops=t["ops"][:x.reached + 1], rejected_at=x.reached))
+                      dict(cfg=t["cfg"], ops=t["ops"][:x.reached + 1], rejected_at=x.reached, mode=t.get("mode", {})))
 
 
 def run(ctx):
@@ -410,6 +415,11 @@ def run(ctx):
         traces.append(t)
     ctx.extra["spec_behaviours_replayed"] = len(behs)
     ctx.extra["spec_behaviours_not_reproduced"] = drift   # each of these is also rejected by TLC below
+    # every second history is executed with the "already fired, chained on a pending Deferred" form of the
+    # Async function (same calls, same specification: the function's result is not available until it fires)
+    for i in range(1, len(traces), 2):
+        traces[i] = run_history(traces[i]["cfg"], traces[i]["ops"], chained=True)
+    ctx.extra["histories_with_fired_chained_async_function"] = len(traces) // 2
     ctx.note_traces(traces)
     ctx.log("recorded %d real executions (%d exhaustive depth %d, %d state/call pairs over %d observed states, %d random, %d from TLC behaviours)" % (
         len(traces), nex, depth, ncov, nstates, nrand, len(behs)))
@@ -421,7 +431,7 @@ def run(ctx):
 
 
 def replay(ctx, obj):
-    t = run_history(obj["cfg"], [tuple(o) for o in obj["ops"]])
+    t = run_history(obj["cfg"], [tuple(o) for o in obj["ops"]], **obj.get("mode", {}))
     ctx.note_trace(t)
     rej = ctx.validate("LockSemTrace", [t])
     report(ctx, [t], rej, "replay")
